@@ -9,6 +9,9 @@ TRUST = ("Trusted base: the minichain simulator (harness/src/chain.rs: bank, sta
 
 # id -> (technique, level text, design ref)
 CHECKS = {
+ "C01": ("stateful model-based property testing (proptest): generated unbond-heavy histories + structured release-group scenarios, arrival ledger kept from chain events as reference model, metamorphic withdrawal-order permutations and dry-run liveness probes on cloned worlds",
+         "Exploration: generated histories and structured multi-batch release scenarios (slashing of unbonding stake, unsolicited transfers, mixed-token batches) run against the real contracts; after every step released claims must be covered by the hub balance; every withdrawal must pay exactly the recorded share once; every release group is bounded above by what the harness's own ledger saw arrive and below by the dust bound; claimants' payouts must not depend on withdrawal order (permutations on cloned worlds).",
+         "DESIGN.md 5 C01"),
  "C02": ("stateful property-based testing (proptest): generated full-system histories, invariant + exact book-keeping equations against the simulated chain after every step",
          "Exploration: thousands of generated histories (configurations x operation sequences incl. slashing, registry changes, reward rounds) run against the real contracts; every step checks booked <= delegated, delegate messages sum to the payment and hit only registered validators, exact book deltas and an unchanged hub liquid balance. A verdict of 'held' means no counterexample in the explored histories, not absence.",
          "DESIGN.md 5 C02"),
@@ -24,6 +27,12 @@ CHECKS = {
  "C06": ("stateful property-based testing with injected slashing faults (proptest): exact pro-rata reference for the recognised totals and for every release group, CheckSlashing idempotence probes on cloned worlds",
          "Exploration with fault injection: slashing events of any size on any validator (bonded and unbonding stake) are injected into generated histories; the State view must equal the exact pro-rata split of the surviving delegations (within 2 units), never rise, CheckSlashing must book exactly that view and be idempotent, and every release group must pay each (batch, token) its pro-rata share of the coins that arrived.",
          "DESIGN.md 5 C06"),
+ "C07": ("stateful model-based property testing (proptest): reference claims ledger compared with UnbondRequests / CurrentBatch / AllHistory after every step; foreign Receive hooks must be rejected",
+         "Exploration: many users unbond both tokens via Send and SendFrom across epoch boundaries in generated histories; a reference ledger of (user, batch) claims must equal the hub's reports after every step, batch totals must equal the sum of claims (+ paid), entries may vanish only through their owner's withdrawal of a released batch, and hooks from anything but the two registered tokens must fail.",
+         "DESIGN.md 5 C07"),
+ "C08": ("stateful property-based testing (proptest) with boundary-relative clock generation: temporal predicates over the executed-message trace and AllHistory snapshots",
+         "Exploration: generated period configurations (incl. 1 s) and histories whose clock moves land on -1/0/+1 s of the epoch and unbonding boundaries; release/payment only after the full unbonding period, undelegation only in an unbond strictly after the epoch period (and not skipped), consecutive batch ids, forward-only counters, released entries frozen, undelegated amount equal to the entry's valuation.",
+         "DESIGN.md 5 C08"),
 }
 
 PENDING = {}
